@@ -1,2 +1,3 @@
 import Props.C17
 import Props.C18
+import Props.C09
